@@ -20,6 +20,8 @@ type Profile struct {
 	Level  string // exploration | fault_enumeration
 	Rule   string
 	Oracle func() Oracle
+	// Exec replaces the default executor (plans that need auxiliary worlds).
+	Exec func(t *testing.T, plan *Plan) *World
 	// LaneP re-runs the world's decisive runs with the real binary (optional).
 	LaneP func(t *testing.T, plan *Plan, w *World, sink *Sink)
 	// Explore generates and executes everything that belongs to world index idx
@@ -305,7 +307,12 @@ func execPlan(t *testing.T, plan *Plan, known []string) *World {
 	if p == nil {
 		panic("plan for unknown property " + plan.Prop)
 	}
-	w := Exec(t, plan, p.Oracle())
+	var w *World
+	if p.Exec != nil {
+		w = p.Exec(t, plan)
+	} else {
+		w = Exec(t, plan, p.Oracle())
+	}
 	if plan.Meta["lane"] == "P" && p.LaneP != nil && len(w.Viol) == 0 && w.Harness == "" {
 		sink := newSink(plan.Prop, nil)
 		p.LaneP(t, plan, w, sink)
